@@ -611,7 +611,52 @@ def stage_binding(cx):
     res.notes["binding_correspondence"] = kinds
 
 
-STAGES = [stage_pathparams, stage_similar, stage_binding]
+def stage_rules_survive(cx):
+    """the schema a bound path variable carries is the schema that was declared for it: the node under pathVariables equals the
+    node of the same property of a TYPE with the same body (optional flag, rules, notes, type), written directly, through a
+    `Path @type` body and through allOf"""
+    import json as _json
+    from .. import proj as P
+    res = cx.res
+    props = ['"id": 1 // {optional: true}', '"id": 1 // {min: 1, max: 9}', '"id": "a" // {type: "string", minLength: 1} - a note', '"id": 5 // {const: true}',
+             '"id": 1.5 // {precision: 1, optional: true}', '"id": "x" // {enum: ["x", "y"]}', '"id": 1 // {nullable: true}']
+    docs = []
+    for pr_ in props:
+        body = "{\n      %s\n    }" % pr_
+        decl = "TYPE @decl\n  {\n    %s\n  }\n" % pr_
+        docs.append(("direct", "JSIGHT 0.3\n" + decl + "GET /c/{id}\n  Path\n    " + body + "\n  200 any\n"))
+        docs.append(("shortcut", "JSIGHT 0.3\n" + decl + "GET /c/{id}\n  Path\n    @decl\n  200 any\n"))
+        docs.append(("allof", "JSIGHT 0.3\n" + decl + "GET /c/{id}\n  Path\n    { // {allOf: \"@decl\"}\n    }\n  200 any\n"))
+    outs = C.run_sharded("harness", "fn", [P.run_line("out=json", [("a.jst", d.encode())]) for _, d in docs])
+    res.count(len(docs))
+    n_ok = 0
+
+    def strip(x):
+        if isinstance(x, dict):
+            return {k: strip(v) for k, v in x.items() if k not in ("inheritedFrom",)}
+        if isinstance(x, list):
+            return [strip(v) for v in x]
+        return x
+    for (form, d), o in zip(docs, outs):
+        st, dd = P.parse(o)
+        if st != "ok":
+            continue
+        j = _json.loads(C.unhx(dd["json"]))
+        try:
+            want = j["userTypes"]["@decl"]["schema"]["content"]["children"][0]
+            got = j["interactions"]["http GET /c/{id}"]["pathVariables"]["schema"]["content"]["children"][0]
+        except Exception:
+            cx.spec_bad.append(("binding: the document is accepted without pathVariables for {id}:\n%s" % d, {"doc": C.hx(d.encode()), "theorem": "binding_correct"}))
+            continue
+        n_ok += 1
+        res.nontrivial(("rules-survive", d))
+        if strip(want) != strip(got):
+            cx.spec_bad.append(("binding: the path variable {id} does not carry the schema declared for it (%s form): declared %s, bound %s; document:\n%s" % (
+                form, _json.dumps(strip(want), sort_keys=True)[:300], _json.dumps(strip(got), sort_keys=True)[:300], d), {"doc": C.hx(d.encode()), "theorem": "binding_correct"}))
+    res.notes["rules_survive_binding"] = {"documents": len(docs), "accepted_and_compared": n_ok}
+
+
+STAGES = [stage_pathparams, stage_similar, stage_binding, stage_rules_survive]
 
 
 def run(res, tier, seed, replay):
